@@ -780,7 +780,9 @@ assert all(s in SPELLING_INDEX for s in CORE), [s for s in CORE if s not in SPEL
 
 # what a role link is offered: every entity of the scene (right class / wrong class; this block / the other block /
 # ANOTHER FILE / deleted again), ids, None, a few non-entities
-ROLE_SPELLINGS = [s_[0] for s_ in SPELLINGS if s_[0].startswith(("entity:", "id-of:", "id:"))] + [
+_ROLE_SKIP = ("entity:ds", "entity:dx", "entity:dy", "entity:b2", "entity:fsrc", "entity:rd", "entity:ofs2", "entity:ofsrc",
+              "entity:oft", "id-of:d1", "id-of:s2", "id-of:xf")       # same class and place as a neighbour
+ROLE_SPELLINGS = [s_[0] for s_ in SPELLINGS if s_[0].startswith(("entity:", "id-of:", "id:")) and s_[0] not in _ROLE_SKIP] + [
     "scalar:none", "scalar:int", "scalar:str", "scalar:object", "list:entities:own+foreign", "ndarray:f8:3", "list:empty"]
 
 # targets whose refusals usually come after a write that is rolled back (the flushed file's bytes change, so every
